@@ -68,6 +68,11 @@ func (p *Paragraph) WriteTo(out io.Writer) error {
 				lines[i] = "."
 			}
 		}
+		if strings.HasPrefix(lines[0], " ") || strings.HasPrefix(lines[0], "\t") {
+			/* The reader trims the text on the field's own line, so an
+			 * indented first line has to start on the next line. */
+			lines = append([]string{""}, lines...)
+		}
 		value = strings.Join(lines, "\n ")
 
 		if _, err := out.Write(
